@@ -5,11 +5,15 @@ sys.path.insert(0, os.path.join(os.path.dirname(os.path.abspath(__file__)), ".."
 import msi as _msi
 
 import runner
+from props import c18w
 from runner import Broken, Finding, run_lines, split_tag, corpus_lines, load_known, GOENV, VH, DRIVER, NCPU
 
-TIE = "corr:redblack + validator:Spec.Cfb.validate + corr:msi-digest"
+TIE = "corr:redblack + corr:comdoc-writer-tables + validator:Spec.Cfb.validate + corr:msi-digest"
 TIE_THEOREM = ("Relic.Props.C18.rb_insert_valid / rb_unfixed_plain (model Relic.Model.RedBlack vs lib/redblack: same tree "
                "for the same insertion sequence); Relic.Spec.Cfb.validate evaluated on the bytes lib/comdoc wrote; "
+               "Relic.Props.C18.alloc_fresh / chain_of_addStream / addStream_frame / addStream_short_fat / free_then_alloc / "
+               "history_preserves_disjoint (model Relic.Model.CfbWriter vs lib/comdoc makeFreeSectors, freeSectors, addStream, "
+               "writeShortSector, AddFile, DeleteFile, Close: same tables entry for entry on the same operations); "
                "Relic.Props.C18.tar_equals_direct / msi_digest_ignores_signature / sort_is_permutation / sort_total_no_panic_partial / sort_unique "
                "(model Relic.Model.MsiDigest vs lib/authenticode msiverify.go, msitar.go on the same directory trees)")
 RULE = ("(a) red-black: every insertion order of 0..n-1 (n<=5 quick, <=7 thorough), ascending/descending runs of 8..64, seeded random "
@@ -25,8 +29,9 @@ RULE = ("(a) red-black: every insertion order of 0..n-1 (n<=5 quick, <=7 thoroug
         "name, metadata, bytes; touched names hold exactly the new bytes). (c) DigestMSI vs DigestMsiTar(MsiToTar) on input and output, "
         "plain and extended, and digest(out)=digest(in) when only signature streams changed. thorough adds a 7 MiB file whose 109 "
         "header FAT slots are full (DIFAT growth). Non-trivial = distinct rb op with >=3 keys, or distinct file x history whose input "
-        "is valid per the Lean predicate and on which the real code ran to completion (output judged), or a digest op. (d) " + _msi.RULE)
-ASSUMPTIONS = ["directory names in generated files use ASCII letters, U+0005 and MSI's 0x3800-0x4840 code units; the validator's "
+        "is valid per the Lean predicate and on which the real code ran to completion (output judged), or a digest op. " + c18w.RULE + " (d) " + _msi.RULE)
+ASSUMPTIONS = ["allocation tables shorter than 2^31 entries and stream contents shorter than 2^32 bytes (no int32/uint32 wrap in the writer model)",
+               "directory names in generated files use ASCII letters, U+0005 and MSI's 0x3800-0x4840 code units; the validator's "
                "upper-casing covers ASCII, Latin-1, Latin Extended-A, basic Greek and Cyrillic only",
                "Go string comparison of valid UTF-8 equals code-point order (used by the model of lessDirEnt)",
                "stream contents up to 9000 bytes (70000 in the DIFAT-growth case); files <= 40 KiB in the quick tier",
@@ -35,8 +40,16 @@ ASSUMPTIONS = ["directory names in generated files use ASCII letters, U+0005 and
 TRUSTED = ["Relic.Spec.Cfb.validate is my reading of [MS-CFB] (strict: exact chain lengths, special FAT marks, no trailing free sector, "
            "unreached directory entries empty); it is executed natively on the output bytes, no theorem connects it to lib/comdoc's writer",
            "the harness' CFB writer only produces *inputs*; every input is itself judged by the Lean predicate and counted only if valid",
-           "model Relic.Model.RedBlack is hand-written; tied to lib/redblack by differential execution on every run"] + list(_msi.TRUSTED)
-UNPROVED = ["add_preserves_valid_full (validator on real output only; lib/comdoc's writer is not modelled: no alloc_fresh / frame lemma)",
+           "model Relic.Model.RedBlack is hand-written; tied to lib/redblack by differential execution on every run",
+           "model Relic.Model.CfbWriter (tables only: sector contents, directory links and names are not modelled; names enter as "
+           "EqualFold classes assigned by the harness) is hand-written; tied to lib/comdoc by differential execution on every run, "
+           "unexported functions reached through lib/comdoc/hooks_verif.go (build tag verif)"] + list(_msi.TRUSTED)
+UNPROVED = ["add_preserves_valid_full (validator on real output only; the writer's allocation layer is modelled and proved "
+            "(alloc_fresh, addStream_frame, ...), Close is modelled and tied but has no theorem, sector contents are not modelled)",
+            "close_counts_full (that the bytes Close writes parse back to the tables of the model state: sector contents are not "
+            "modelled; the table-level count theorem allocTables_counts is proved and the read-back is compared on every wr op)",
+            "add_preserves_disjoint_full (state level: that AddFile/DeleteFile keep the heads of St a list to which the proved "
+            "table-level history_preserves_disjoint applies; evaluated on every dumped state instead)",
             "order_is_mscfb_full (refuted for the unchanged lessDirEnt: order_differs_mixed_case)",
             "msi_digest_ignores_signature_full (over file bytes; proved over directory trees: msi_digest_ignores_signature, tied by the MSI ops)",
             "tar_equals_direct_full / tar_equals_direct_tree_full (every input: refuted by tar_differs_encoded_signature_name; proved under "
@@ -180,6 +193,8 @@ def run(ctx):
             mops.append("C18 cfbv " + f[3])
         elif f[0] == "MSI":
             mops.append(op)
+        elif f[1] in c18w.KINDS:
+            mops.append(c18w.model_op(op, il))
         else:
             mops.append("C18 bad")
     model = run_lines([DRIVER], mops, parallel=NCPU)
@@ -190,6 +205,7 @@ def run(ctx):
     inputs_valid = inputs_total = 0
     variants = Counter()
     mixed_reach, shapes, order_variant = {}, Counter(), Counter()
+    wstats = Counter()
 
     def report(kind, theorem, op, expected, observed, note, il, mres, tag):
         kn = next((k for k in known if matches_known(k, op, il, mres, tag)), None)
@@ -204,19 +220,26 @@ def run(ctx):
         kinds[f[0] + " " + f[1]] += 1
         new = op not in seen
         seen.add(op)
-        if f[0] == "MSI":
-            cm = _msi.canon_model(op, mres)
-            tags[_msi.branch(op, cm, tag)] += 1
-            if new and _msi.nontrivial(op, cm, tag):
-                nontriv += 1
-            bad = _msi.predicate("C18", op, il, cm, tag)
-            short = " ".join(x if len(x) < 200 else x[:80] + "…(%d)" % len(x) for x in il.split(" "))
-            if bad:
-                report("counterexample", bad[0], op, bad[1], short, bad[2], il, mres, tag)
-            elif not _msi.equiv(op, il, cm):
-                report("broken-tie", "Relic.Model.MsiDigest vs lib/authenticode (DigestMSI / MsiToTar / DigestMsiTar)", op,
-                       " ".join(x if len(x) < 200 else x[:80] + "…(%d)" % len(x) for x in cm.split(" ")), short,
-                       "model and implementation disagree on an MSI digest op", il, mres, tag)
+        if f[0] == "MSI" or f[1] in c18w.KINDS:
+            if f[0] == "MSI":
+                cm = _msi.canon_model(op, mres)
+                tags[_msi.branch(op, cm, tag)] += 1
+                if new and _msi.nontrivial(op, cm, tag):
+                    nontriv += 1
+                bad = _msi.predicate("C18", op, il, cm, tag)
+                short = " ".join(x if len(x) < 200 else x[:80] + "…(%d)" % len(x) for x in il.split(" "))
+                if bad:
+                    report("counterexample", bad[0], op, bad[1], short, bad[2], il, mres, tag)
+                elif not _msi.equiv(op, il, cm):
+                    report("broken-tie", "Relic.Model.MsiDigest vs lib/authenticode (DigestMSI / MsiToTar / DigestMsiTar)", op,
+                           " ".join(x if len(x) < 200 else x[:80] + "…(%d)" % len(x) for x in cm.split(" ")), short,
+                           "model and implementation disagree on an MSI digest op", il, mres, tag)
+            elif f[1] in c18w.KINDS:
+                probs, nt = c18w.judge(op, il, mres, tag, wstats)
+                for kind, thm, exp, obs, note in probs:
+                    report(kind, thm, op, exp, obs, note, il, mres, tag)
+                if new and nt:
+                    nontriv += 1
             continue
         if f[1] == "rb":
             nkeys = len(f) - 2
@@ -343,6 +366,6 @@ def run(ctx):
            "history_status": dict(status_hist), "output_verdicts": dict(out_classes),
            "input_files_valid": inputs_valid, "input_files_total": inputs_total,
            "input_size_KiB_histogram": {str(k): v for k, v in sorted(sizes.items())},
-           "shapes_exercised": dict(shapes), "directory_order_variant_of_repo": dict(order_variant),
+           "shapes_exercised": dict(shapes), "writer_model_tie": dict(wstats), "directory_order_variant_of_repo": dict(order_variant),
            "histories_with_sibling_pairs_where_lessDirEnt_and_mscfb_differ": mixed_reach}
     return cov, findings, known_hits
